@@ -1,8 +1,8 @@
 SPECIFICATION Spec
 CONSTANTS
-  Alphabet = {32, 9, 11, 127, 1, 97, 45, 47, 233, 12288}
-  N = 5
-  Kind = "line"
+  Alphabet = {97, 90, 49, 43, 45, 44, 32, 95}
+  N = 4
+  Kind = "pdirective"
   Prefixes <- PrefixesNone
   TRIM_CONTROL = FALSE
 INVARIANTS NonBlankKept CaseOnlyInName Fixpoint NoTrailingBlanks Emit
